@@ -1,6 +1,9 @@
 use crate::mem_store::partition::ColumnLocator;
 use lru::LruCache;
+#[cfg(not(locustdb_verif))]
 use std::sync::{Arc, Mutex};
+#[cfg(locustdb_verif)]
+use locustdb_simrt::sync::{Arc, Mutex};
 
 #[derive(Clone, Debug)]
 pub struct Lru {
